@@ -91,19 +91,25 @@ fn main() {
         std::process::exit(2);
     }
     // a panic outside any simulated contract frame is a defect of the harness, never a verdict: exit 2
-    let code = std::panic::catch_unwind(|| match args[1].as_str() {
-        "check" => cmd_check(&args),
-        "replay" => cmd_replay(&args),
-        "hashes" => cmd_hashes(&args),
-        _ => {
-            eprintln!("unknown command");
-            2
-        }
-    })
-    .unwrap_or_else(|_| {
-        eprintln!("harness error: the simulator itself panicked (re-run with CWSIM_DEBUG=1 for the location)");
-        2
-    });
+    // everything runs on a thread with a deep stack: nested sub-message dispatch in cw-multi-test is recursive
+    let code = std::thread::Builder::new()
+        .stack_size(1 << 30)
+        .spawn(move || match args[1].as_str() {
+            "check" => cmd_check(&args),
+            "replay" => cmd_replay(&args),
+            "hashes" => cmd_hashes(&args),
+            _ => {
+                eprintln!("unknown command");
+                2
+            }
+        })
+        .expect("spawn")
+        .join()
+        .or_else(|_| -> Result<i32, ()> {
+            eprintln!("harness error: the simulator itself panicked (re-run with CWSIM_DEBUG=1 for the location)");
+            Ok(2)
+        })
+        .unwrap_or(2);
     std::process::exit(code);
 }
 
